@@ -24,7 +24,7 @@ ASSUMPTIONS = ["'finished' = last observable event (ack under when_saved) - an u
                "virtual-time loop, inline executor"]
 
 
-def scenario() -> Any:
+def scenario(big: bool = False) -> Any:
     def fin(d: Dict[str, Any]) -> Dict[str, Any]:
         A, P = d["A"], d["P"]
         fam = d.pop("family")
@@ -60,7 +60,7 @@ def scenario() -> Any:
     msg = cm.message(kinds=("async", "async", "async", "async", "sync", "bad", "unknown"),
                      outs=("ret", "ret", "ret", "ValueError", "NoResult"), acks=("sync", "async", "future"))
     return st.fixed_dictionaries({
-        "A": st.integers(1, 4), "P": st.integers(0, 4),
+        "A": st.integers(1, 7 if big else 4), "P": st.integers(0, 7 if big else 4),
         "family": st.sampled_from(["burst", "burst", "faulty_burst", "free"]),
         "faults": st.lists(st.sampled_from(["sync_fail", "async_fail"]), min_size=1, max_size=3),
         "extra": st.integers(0, 6),
@@ -74,7 +74,7 @@ def scenario() -> Any:
 
 def parts(tier: str) -> List[Part]:
     if tier == "thorough":
-        return [Part("scenarios", "given", shards=16, examples=4000, strategy=scenario, soft_deadline_s=1500)]
+        return [Part("scenarios", "given", shards=16, examples=10000, strategy=lambda: scenario(True), soft_deadline_s=3000)]
     return [Part("scenarios", "given", shards=8, examples=400, strategy=scenario, soft_deadline_s=120)]
 
 
